@@ -4,7 +4,7 @@ import numpy as np
 from ..runner import Acc, HarnessError
 from ..refmodel import Fmt, MODES, quantize
 from .. import alphabet as al
-from ..common import Fxp, fx, mk, codes, flags, fmt_of, reset_class_state, obs
+from ..common import AGED, build_aged, Fxp, fx, mk, codes, flags, fmt_of, reset_class_state, obs
 from ..explore import bfs, Disabled
 
 ID = 'C10'
@@ -16,7 +16,7 @@ RULE = ('E1 cases = (source format, destination format, destination modes, route
 ASSUMPTIONS = ['reference quantizer (C01)', 'the source holds exact codes (built with raw=True)',
                'flags of the destination are compared only for routes that start from a fresh destination']
 
-ROUTES = ('resize', 'resize_dtype', 'like=', 'like()', 'Fxp(x,sizes)', 'call', 'set_val', 'equal', 'setitem', 'fxp_like', 'value')
+ROUTES = ('resize', 'resize_dtype', 'resize_n_int', 'like=', 'like()', 'Fxp(x,sizes)', 'Fxp(x,n_int)', 'call', 'set_val', 'equal', 'setitem', 'fxp_like', 'value')
 # for scalar sources additionally: t[1] = x into a 1-d destination (indexed assignment of a fixed-point element)
 
 
@@ -41,6 +41,14 @@ def convert(route, x, dst, r, o):
         y.config.rounding, y.config.overflow = r, o
         y.resize(dtype=dst.dtype)
         return y
+    if route == 'resize_n_int':
+        # the destination described by its integer and fraction lengths (the word follows), signedness changed in the same call
+        y = x.deepcopy()
+        y.config.rounding, y.config.overflow = r, o
+        y.resize(signed=dst.signed, n_int=dst.n_int, n_frac=dst.n_frac)
+        return y
+    if route == 'Fxp(x,n_int)':
+        return Fxp(x, signed=dst.signed, n_int=dst.n_int, n_frac=dst.n_frac, rounding=r, overflow=o)
     if route == 'Fxp(x,sizes)':
         return Fxp(x, dst.signed, dst.n_word, dst.n_frac, rounding=r, overflow=o)
     if route == 'value':
@@ -79,6 +87,17 @@ def make_source(src, cs, shape, by):
         arr = np.array(cs, dtype=np.int64).reshape(r, c)
         x = Fxp(np.ascontiguousarray(arr.T), src.signed, src.n_word, src.n_frac, raw=True).T
         assert codes(x) == list(cs)
+        return x
+    if by in AGED:
+        return build_aged(src, list(cs), tuple(shape), by)
+    if by == 'elem_hist':
+        # a scalar source that is an element of an array which was read before, then resized by dtype string (from a wider, finer format)
+        f0 = Fmt(src.signed, src.n_word + 4, src.n_frac + 2)
+        x0 = Fxp(np.array([cs[0] << 2, 0, cs[0] << 2], dtype=np.int64), f0.signed, f0.n_word, f0.n_frac, raw=True)
+        x0[0], x0[1]
+        x0.resize(dtype=src.dtype)
+        x = x0[2]
+        assert codes(x) == list(cs) and fmt_of(x) == src
         return x
     return _make_source(src, cs, shape, by)
 
@@ -263,9 +282,14 @@ def run_shard(sh):
                     if src.n_word <= 2:
                         for c in cs:
                             judge(acc, src, dst, r, o, [c], (), route, 'E1s')
+                            if route != 'value' and (r, o) in (('around', 'saturate'), ('floor', 'wrap')):
+                                judge(acc, src, dst, r, o, [c], (), route, 'E1s', 'elem_hist')
                             if route == 'setitem':
                                 judge(acc, src, dst, r, o, [c], (), 'setitem_elem', 'E1s')
                                 judge(acc, src, dst, r, o, [c], (), 'setitem_elem', 'E1s', 'value')
+                    if route != 'value' and (r, o) in (('ceil', 'saturate'), ('around', 'wrap')) and (src.n_word <= 2 or g.index(dst) % 3 == sh['si'] % 3):
+                        how = AGED[(g.index(dst) + ROUTES.index(route)) % len(AGED)]
+                        judge(acc, src, dst, r, o, cs, (len(cs),), route, 'E1', how)          # sources reached through a history
                     if src.n_word in (2, 3) and (r, o) in (('trunc', 'saturate'), ('around', 'wrap')):
                         judge(acc, src, dst, r, o, cs[:4], (2, 2), route, 'E1m')
                         if len(cs) >= 6 and route != 'value':
@@ -281,13 +305,19 @@ def run_shard(sh):
                     for dsig in (True, False):
                         for dnf in sorted({0, dnw // 2, dnw}):
                             dst = Fmt(dsig, dnw, dnf)
-                            # keep raw re-scaling inside 62 bits (core domain)
-                            if nw + max(0, dnf - snf) > 62:
-                                acc.skipped += 1
-                                continue
                             for route in ROUTES:
                                 judge(acc, src, dst, 'trunc', 'saturate', cs, (len(cs),), route, 'G')
+                            for c in (src.lo, src.hi):
+                                # scalar sources, and sources that are elements read from an array (NumPy scalars inside)
+                                for route in ROUTES + ('setitem_elem',):
+                                    judge(acc, src, dst, 'around', 'saturate', [c], (), route, 'Gs')
+                                    if route != 'value':
+                                        judge(acc, src, dst, 'around', 'saturate', [c], (), route, 'Gs', 'elem_hist')
                             for (r, o) in MODES[1:]:
+                                # wrap is defined while the re-scaled code stays inside 62 bits (core domain); saturate for any magnitude
+                                if o == 'wrap' and nw + max(0, dnf - snf) > 62:
+                                    acc.skipped += 1
+                                    continue
                                 judge(acc, src, dst, r, o, cs, (len(cs),), 'resize', 'G')
     else:
         system = SeqSystem(SEQ_ROOTS[sh['root']])
